@@ -41,7 +41,9 @@ KeysFor(B, r) ==
      \cup (IF o.inline = o.inline_again /\ o.inline = o.collect_string THEN {} ELSE {"C02/" \o B \o "/inline_entry_points_disagree"})
      \cup (IF literalMarks THEN {}
            ELSE IF IsPanic(o.inject) THEN {"C11/" \o B \o "/inject_panics"}
-           ELSE IF o.inject.r = o.inline THEN {} ELSE {"C11/" \o B \o "/inject_differs_from_inline"})
+           ELSE IF o.inject.r = o.inline THEN {}
+           ELSE {"C11/" \o B \o "/inject_differs_from_inline" \o
+                 (IF B = "sqlite" /\ \E i \in DOMAIN Ti : Ti[i].k = "str" /\ HasChar(Ti[i].t, BSL) THEN "/backslash_in_literal" ELSE "")})
 
 Exact(B, r) ==
   IsPanic(r.obs.r[B]) \/
